@@ -41,6 +41,8 @@ def install(ctx, repo, probes):
         ctx.target("unit/" + u)
     for u in ("hours", "minutes", "seconds"):
         ctx.target("decimal/" + u)
+    for how in DERIVE:
+        ctx.target("derived/" + how)
     ctx.target("alt/date-only/cal", "alt/date-only/ord",
                "alt/date-only/month", "alt/date-only/year")
     ctx.target("weeks", "negative", "empty", "alt/ext", "alt/basic",
@@ -62,6 +64,31 @@ def close(a, b):
     return abs(F(a) - F(b)) <= F(1, 10**9) * max(1, abs(F(a)))
 
 
+def _exact_part_seconds(kw):
+    return abs(sum(F(kw.get(u, 0) or 0) * k for u, k in (
+        ("weeks", 604800), ("days", 86400), ("hours", 3600),
+        ("minutes", 60), ("seconds", 1))))
+
+
+def classify_beyond_float(kind, case, detail):
+    """the exact part (weeks..seconds) of the duration is 2**53 seconds or
+    more: the library totals it in floats (absent time components are float
+    zeros, H/M/S are parsed as floats)"""
+    if not kind.startswith(("roundtrip.", "spelled.")):
+        return False
+    kw = (case or {}).get("d") or (case or {}).get("want")
+    if not isinstance(kw, dict):
+        return False
+    return _exact_part_seconds(kw) >= 2 ** 53
+
+
+CLASSIFIERS = {"c10_exact_part_beyond_float_precision": classify_beyond_float}
+FINDING_EXAMPLES = {
+    "c10_exact_part_beyond_float_precision": {
+        "op": "roundtrip", "d": {"hours": 2 ** 53 + 1}},
+}
+
+
 def same_components(d, want):
     got = comps(d)
     if want.get("weeks", 1) == 0:
@@ -78,6 +105,23 @@ def run_case(ctx, repo, case):
     P = ctx.dparser
     if op == "roundtrip":
         d = repo.dur(case["d"])
+        how = case.get("derive")
+        if how:
+            # the same for durations that come out of arithmetic (all of
+            # these keep one sign)
+            n = case.get("n", 2)
+            try:
+                d = {"x0": lambda: d * 0, "d-d": lambda: d - d,
+                     "xn": lambda: d * n, "nx": lambda: n * d,
+                     "//n": lambda: d // n, "abs": lambda: abs(d),
+                     "d+d": lambda: d + d, "to_days": lambda: d.to_days(),
+                     "to_weeks": lambda: d.to_weeks(),
+                     "0+d": lambda: repo.Duration() + d}[how]()
+            except Exception as exc:
+                ctx.violation("roundtrip.raised", "%s on %r raised %r" % (
+                    how, case["d"], exc), d=case["d"])
+                return
+            ctx.cls("derived/" + how)
         ctx.ev("roundtrip")
         try:
             s = str(d)
@@ -188,6 +232,12 @@ def rand_value(rng, unit, decimal_ok):
         n = rng.randint(10, 99999)
     else:
         n = rng.choice((1, 10, 60, 24, 100, 1000, 10**6, 999999, 365, 366))
+    if rng.random() < 0.03:
+        # whole numbers of every magnitude, also beyond the integers a
+        # float holds exactly
+        return rng.choice((2 ** 53 + 1, 2 ** 53 + 3, 10 ** 17 + 1,
+                           10 ** 20 + 7, 10 ** 15 + 1,
+                           rng.randrange(10 ** 15, 10 ** 24) | 1))
     if decimal_ok and unit in ("hours", "minutes", "seconds") and \
             rng.random() < 0.35:
         k = rng.choice((1, 2, 3, 4, 5, 6, 6, 9, 12))
@@ -199,7 +249,8 @@ def rand_value(rng, unit, decimal_ok):
 
 def make_duration(rng):
     if rng.random() < 0.12:
-        return {"weeks": rng.choice((1, -1, 52, rng.randint(-5000, 5000)))}
+        return {"weeks": rng.choice((1, -1, 52, rng.randint(-5000, 5000),
+                                     10 ** 20 + 1, -(2 ** 53) - 1))}
     sign = rng.choice((1, 1, -1))
     kw = {}
     v = rng.random()
@@ -351,6 +402,10 @@ def make_alt(rng):
             "kind": kind}
 
 
+DERIVE = ("x0", "d-d", "xn", "nx", "//n", "abs", "d+d", "to_days",
+          "to_weeks", "0+d")
+
+
 def workload(ctx, repo):
     rng = ctx.rng
     n = 8000 if ctx.tier == "quick" else 30000
@@ -366,6 +421,15 @@ def workload(ctx, repo):
         if k % 997 == 1:
             ctx.sample(case)
         run_case(ctx, repo, case)
+        if k % 3 == 0:
+            how = DERIVE[(k // 3) % len(DERIVE)]
+            if how == "to_weeks" and ("weeks" in kw or any(
+                    kw.get(u) for u in ("years", "months"))):
+                how = "x0"
+            case = {"op": "roundtrip", "d": kw, "derive": how,
+                    "n": rng.choice((1, 2, 3, 5, 7))}
+            ctx.case = case
+            run_case(ctx, repo, case)
         if k % 4 < 3:
             text, want = make_spelled(rng)
             case = {"op": "spelled", "text": text, "want": want}
